@@ -5,6 +5,8 @@ package main
 import (
 	"encoding/json"
 	"fmt"
+	"hash/fnv"
+	"os"
 	"strings"
 
 	"grol.io/grol/lexer"
@@ -13,7 +15,7 @@ import (
 
 func init() {
 	props["C19"] = propDef{check: checkC19, replay: replayC19,
-		rule: "case = one history of mutation attempts (TLC-explored, kind x scope, <= 3 attempts) on a constant of one value kind, replayed with registers on and off; the constant is printed after every attempt; distinct by source text; non-trivial always (every case contains at least one attempt)"}
+		rule: "case = one history of mutation attempts and of inputs failing inside a call (TLC-explored, kind x scope, <= 3 steps) on a constant of one value kind, replayed with registers on and off (under a tight memory limit in a child process for huge arrays); the constant is printed after every step; distinct by source text; non-trivial always (every case contains at least one attempt or failing input)"}
 }
 
 type constKind struct {
@@ -30,8 +32,71 @@ var constKinds = []constKind{
 	{"arr-shrunk", "(1:12)[0:3]", "[9]", ""},
 }
 
+// constants of the tight-memory world: arrays far above the 256 elements below which the memory budget is not consulted; the
+// budget left after binding them (c19MemSlack) is a quarter of one copy. They are observed through elements and length.
+var c19HugeKinds = []constKind{
+	{"arr-huge", "[0] * 300000", "[9]", ""},
+	{"arr-huge-mixed", `[1, "a", 2.5] * 8000`, "[9]", ""},
+	{"huge-map", c19HugeMapLit(), "{0: 9}", ""}, // (keys 0..3999: the attempts address it like an array, K[0])
+}
+
+func c19HugeMapLit() string {
+	var ps []string
+	for i := 0; i < 4000; i++ {
+		ps = append(ps, fmt.Sprintf("%d:%d", i, i+1))
+	}
+	return "{" + strings.Join(ps, ",") + "}"
+}
+
+const c19HugeObs = "println([K[0], K[1], K[2], K[-1], K[3999], len(K)])"
+
+func c19IsHuge(ck constKind) bool { return strings.Contains(ck.name, "huge") }
+
+// c19BodyExpr is what a body run by an attempt prints for the constant: the constant, for a huge array what c19HugeObs shows.
+func c19BodyExpr(ck constKind) string {
+	if c19IsHuge(ck) {
+		return `(if type(K) == "ARRAY" || type(K) == "MAP" {[K[0], K[1], K[2], K[-1], K[3999], len(K)]} else {K})`
+	}
+	return "K"
+}
+
+func c19ObsOf(ck constKind) string {
+	if c19IsHuge(ck) {
+		return c19HugeObs
+	}
+	return "println(K)"
+}
+
+// c19FailOp: the input of a history step "fail-<how>" in <where> (failing.go); the function of the session it fails in has a
+// parameter and a local of its own.
+func c19FailOp(op [2]string, i int) (string, bool) {
+	if !strings.HasPrefix(op[0], "fail-") {
+		return "", false
+	}
+	return failInput(strings.TrimPrefix(op[0], "fail-"), op[1], "v", "1", "x = v", i), true
+}
+
+func c19HasFail(h [][2]string) bool {
+	for _, op := range h {
+		if strings.HasPrefix(op[0], "fail-") {
+			return true
+		}
+	}
+	return false
+}
+
+// c19Run runs a session with registers on or off (sessions with failing inputs: under their limits).
+func c19Run(in []string, noReg bool) []inObs {
+	if hasFailInput(in) {
+		return runFailHistory(in, noReg)
+	}
+	obs, _ := runHistory(in, RunOpt{NoReg: noReg})
+	return obs
+}
+
 func c19Attempt(kind, scope string, ck constKind) string {
 	var a string
+	bk := c19BodyExpr(ck)
 	switch kind {
 	case "assign":
 		a = "K = " + ck.other
@@ -54,24 +119,24 @@ func c19Attempt(kind, scope string, ck constKind) string {
 			a = "del(K[0])"
 		}
 	case "loop-var":
-		a = `for K = 2 {println("body", K)}`
+		a = `for K = 2 {println("body", ` + bk + `)}`
 	case "list-loop-var":
-		a = `for K = [7, 8] {println("body", K)}`
+		a = `for K = [7, 8] {println("body", ` + bk + `)}`
 	case "param":
-		a = `println("body", func(K) {K}(` + ck.other + `))`
+		a = `println("body", func(K) {` + bk + `}(` + ck.other + `))`
 		if ck.name != "int" {
-			a = `println("body", func(K) {K}(7))`
+			a = `println("body", func(K) {` + bk + `}(7))`
 		}
 	case "nested-assign":
 		a = "func() {K = " + ck.other + "}()"
 	case "nested-define":
-		a = `println("body", func() {K := ` + ck.other + `; K}())`
+		a = `println("body", func() {K := ` + ck.other + `; ` + bk + `}())`
 	case "func-name":
 		a = "func K() {1}"
 	case "equal-reassign":
 		a = "K = " + ck.lit
 	case "loop-from-own-value":
-		a = `for K = K:K + 3 {println("body", K)}`
+		a = `for K = K:K + 3 {println("body", ` + bk + `)}`
 	case "fresh-loop-constant":
 		a = `for FRESHX = 3 {println("fresh", FRESHX)}; del(FRESHX)`
 	case "fresh-param-constant":
@@ -101,7 +166,11 @@ func c19ClosureInputs(h [][2]string, ck constKind) []string {
 	mk := "mk = func() {K = " + ck.lit + `; {"get": () => K, "assign": () => {K = ` + ck.other + `}, "define": () => {K := ` + ck.other + `; K}, "incr": () => {K++}, "predecr": () => {--K}, ` +
 		`"index-assign": () => {` + idx + `}, "del-entry": () => {` + del + `}, "nested-assign": () => {func() {K = ` + ck.other + `}()}, "equal-reassign": () => {K = ` + ck.lit + `}}}`
 	in := []string{mk + "; c = mk()", "println(c.get())"}
-	for _, op := range h {
+	for i, op := range h {
+		if f, ok := c19FailOp(op, i); ok {
+			in = append(in, f, "println(c.get())", `println(func() {c.get()}() == c.get())`)
+			continue
+		}
 		call := `c["` + op[0] + `"]()`
 		switch op[1] {
 		case "function":
@@ -111,6 +180,9 @@ func c19ClosureInputs(h [][2]string, ck constKind) []string {
 		}
 		in = append(in, call, "println(c.get())", `println(func() {c.get()}() == c.get())`)
 	}
+	if failNeedsPrelude(in) {
+		in[0] = failPrelude() + "; " + in[0]
+	}
 	return in
 }
 
@@ -119,19 +191,27 @@ func c19ClosureInputs(h [][2]string, ck constKind) []string {
 const c19Rebind = "del(K); K = "
 
 func c19Inputs(h [][2]string, ck constKind) []string {
-	in := []string{"K = " + ck.lit, "println(K)"}
+	obs := c19ObsOf(ck)
+	in := []string{"K = " + ck.lit, obs}
 	cur := ck.lit
-	for _, op := range h {
+	for i, op := range h {
+		if f, ok := c19FailOp(op, i); ok {
+			in = append(in, f, obs, `println(func() {K}() == K)`)
+			continue
+		}
 		if op[0] == "del-rebind" {
 			if cur == ck.lit {
 				cur = ck.other
 			} else {
 				cur = ck.lit
 			}
-			in = append(in, c19Rebind+cur+"; (func() {1})()", "println(K)", `println(func() {K}() == K)`)
+			in = append(in, c19Rebind+cur+"; (func() {1})()", obs, `println(func() {K}() == K)`)
 			continue
 		}
-		in = append(in, c19Attempt(op[0], op[1], ck), "println(K)", `println(func() {K}() == K)`)
+		in = append(in, c19Attempt(op[0], op[1], ck), obs, `println(func() {K}() == K)`)
+	}
+	if failNeedsPrelude(in) {
+		in[0] = failPrelude() + "; " + in[0]
 	}
 	return in
 }
@@ -164,7 +244,7 @@ func c19Judge(in []string, on, off []inObs) string {
 			}
 			continue
 		}
-		if in[i] == "println(K)" || in[i] == "println(c.get())" {
+		if in[i] == "println(K)" || in[i] == c19HugeObs || in[i] == "println(c.get())" {
 			if on[i].Out != base || off[i].Out != base {
 				return fmt.Sprintf("after %q the constant prints %q (registers off: %q), was %q", in[i-1], on[i].Out, off[i].Out, base)
 			}
@@ -174,6 +254,9 @@ func c19Judge(in []string, on, off []inObs) string {
 			if on[i].Out != "true\n" || off[i].Out != "true\n" {
 				return fmt.Sprintf("after %q the constant seen from a function differs: %q / %q", in[i-2], on[i].Out, off[i].Out)
 			}
+			continue
+		}
+		if isFailInput(in[i]) { // an input that fails inside a call, nothing in it names the constant: what follows it is judged
 			continue
 		}
 		// an attempt: same error/non-error outcome and same output with registers on and off
@@ -202,28 +285,40 @@ func c19Judge(in []string, on, off []inObs) string {
 }
 
 func checkC19(c *Ctx) {
-	cfg := func(maxOps int, wbc, rs, wcs, emit bool) string {
+	cfg := func(maxOps int, dev int, emit bool) string {
 		b := func(x bool) string {
 			if x {
 				return "TRUE"
 			}
 			return "FALSE"
 		}
-		return fmt.Sprintf("CONSTANTS\n MaxOps = %d\n WriteBeforeCheck = %s\n RegisterShadows = %s\n CheckWalksCallStack = %s\n EmitOn = %s\nINIT Init\nNEXT Next\nINVARIANT ConstantsStable\n", maxOps, b(wbc), b(rs), b(wcs), b(emit))
+		return fmt.Sprintf("CONSTANTS\n MaxOps = %d\n MaxTightOps = %d\n WriteBeforeCheck = %s\n RegisterShadows = %s\n CheckWalksCallStack = %s\n FailureLeavesFrame = %s\n InPlaceWhenNoRoom = %s\n EmitOn = %s\nINIT Init\nNEXT Next\nINVARIANT ConstantsStable\n",
+			maxOps, c.Pick(1, 2), b(dev == 0), b(dev == 1), b(dev == 2), b(dev == 3), b(dev == 4), b(emit))
 	}
-	for _, dev := range [][3]bool{{true, false, false}, {false, true, false}, {false, false, true}} {
-		r, err := c.TLC(TLCOpt{Spec: "Constants", Cfg: cfg(2, dev[0], dev[1], dev[2], false), Workers: 2, AllowError: true})
-		if err != nil {
-			c.Infra(err)
-			return
-		}
-		if r.InvViolated != "ConstantsStable" {
-			c.Infra(fmt.Errorf("Constants.tla with deviation %v did not violate ConstantsStable (vacuous model): %s", dev, r.ErrText))
-			return
-		}
+	// design level: each named deviation breaks ConstantsStable (the runs are JVMs of their own, awaited at the end)
+	devDone := make(chan error, 5)
+	for dev := 0; dev < 5; dev++ {
+		go func(dev int) {
+			r, err := c.TLC(TLCOpt{Spec: "Constants", Cfg: cfg(2, dev, false), Workers: 1, AllowError: true})
+			if err == nil && r.InvViolated != "ConstantsStable" {
+				err = fmt.Errorf("Constants.tla with deviation %d did not violate ConstantsStable (vacuous model): %s", dev, r.ErrText)
+			}
+			devDone <- err
+		}(dev)
 	}
-	c.Cov("design_counterexamples", "WriteBeforeCheck=TRUE, RegisterShadows=TRUE and CheckWalksCallStack=TRUE each violate ConstantsStable")
-	r, err := c.TLC(TLCOpt{Spec: "Constants", Cfg: cfg(c.Pick(2, 3), false, false, false, true), Workers: 1})
+	defer func() {
+		for dev := 0; dev < 5; dev++ {
+			if err := <-devDone; err != nil {
+				c.Infra(err)
+			}
+		}
+	}()
+	c.Cov("design_counterexamples", "WriteBeforeCheck=TRUE, RegisterShadows=TRUE, CheckWalksCallStack=TRUE, FailureLeavesFrame=TRUE and InPlaceWhenNoRoom=TRUE each violate ConstantsStable")
+	if err := failCalibrate(); err != nil {
+		c.Infra(err)
+		return
+	}
+	r, err := c.TLC(TLCOpt{Spec: "Constants", Cfg: cfg(c.Pick(2, 3), -1, true), Workers: 1})
 	if err != nil {
 		c.Infra(err)
 		return
@@ -231,16 +326,50 @@ func checkC19(c *Ctx) {
 	seen := map[string]bool{}
 	n := 0
 	errFlags := map[string][]bool{} // history key + kind -> error flags of attempts (small vs large comparison)
+	type genLine struct {
+		H    [][2]string `json:"h"`
+		Home string      `json:"home"`
+		Mem  string      `json:"mem"`
+	}
+	// the histories of the tight-memory world first: they run in child processes while this process runs the others
+	var memCases []c19MemCase
 	err = ReadLines(r.Emitted, func(line []byte) error {
-		var g struct {
-			H    [][2]string `json:"h"`
-			Home string      `json:"home"`
+		var g genLine
+		if err := json.Unmarshal(line, &g); err != nil {
+			return err
 		}
+		hk := g.Home + g.Mem + fmt.Sprint(g.H)
+		if g.Mem != "tight" || seen[hk] {
+			return nil
+		}
+		seen[hk] = true
+		for _, ck := range c19HugeKinds {
+			memCases = append(memCases, c19MemCase{Last: g.H[len(g.H)-1][0], Kind: ck.name, Inputs: c19Inputs(g.H, ck), Slack: c19MemSlack(ck)})
+		}
+		return nil
+	})
+	if err != nil {
+		c.Infra(err)
+		return
+	}
+	memDone := make(chan error, 1)
+	scratch := c.Scratch()
+	go func() { memDone <- c19MemRun(scratch, memCases) }() // (child processes: nothing of grol runs in this goroutine)
+	defer func() {
+		if err := <-memDone; err != nil {
+			c.Infra(err)
+			return
+		}
+		c19MemJudge(c, memCases)
+	}()
+	failSessions, failHit, failMissed := 0, 0, 0
+	err = ReadLines(r.Emitted, func(line []byte) error {
+		var g genLine
 		if err := json.Unmarshal(line, &g); err != nil {
 			return err
 		}
 		n++
-		hk := g.Home + fmt.Sprint(g.H)
+		hk := g.Home + g.Mem + fmt.Sprint(g.H)
 		if seen[hk] {
 			return nil
 		}
@@ -248,13 +377,29 @@ func checkC19(c *Ctx) {
 		if c.Thorough() && len(g.H) == 3 && (n+int(c.Seed))%6 != 0 {
 			return nil
 		}
-		for _, ck := range constKinds {
+		last := g.H[len(g.H)-1][0]
+		hh := fnv.New32a()
+		_, _ = hh.Write([]byte(hk))
+		hsh := int(hh.Sum32()>>3) + int(c.Seed)
+		sampled := !c.Thorough() || len(g.H) == 3 // (thorough: every history of up to two steps in full)
+		if sampled && strings.Contains(hk, "fail-deadline") && hsh%4 != 0 {
+			return nil // (a deadline costs milliseconds: one in four of the histories with one, by a hash of history and seed)
+		}
+		kinds := constKinds
+		hasFail := c19HasFail(g.H)
+		if hasFail && sampled {
+			// a failing input does not look at the constant: two of the value kinds per history (chosen by a hash of the
+			// history and the seed), not all twelve
+			k := hsh / 4
+			kinds = []constKind{constKinds[k%len(constKinds)], constKinds[(k+5)%len(constKinds)]}
+		}
+		for _, ck := range kinds {
 			in := c19Inputs(g.H, ck)
 			if g.Home == "closure" {
 				in = c19ClosureInputs(g.H, ck)
 			}
-			on, _ := runHistory(in, RunOpt{})
-			off, _ := runHistory(in, RunOpt{NoReg: true})
+			on := c19Run(in, false)
+			off := c19Run(in, true)
 			key := ck.name + "\n" + strings.Join(in, "\n")
 			c.Case(key, true)
 			if n%4000 == 1 && ck.name == "arr-large" {
@@ -263,17 +408,25 @@ func checkC19(c *Ctx) {
 			var flags []bool
 			for i := 2; i < len(in); i += 3 {
 				flags = append(flags, on[i].Err)
+				if isFailInput(in[i]) {
+					failSessions++
+					if on[i].Err {
+						failHit++
+					} else if !strings.Contains(in[i], c10ShortMark) { // (a deadline can fire too late on a loaded machine; the other ways are exact)
+						failMissed++
+					}
+				}
 			}
 			errFlags[hk+"|"+ck.name] = flags
 			if msg := c19Judge(in, on, off); msg != "" {
-				c.Fail("constant-changed:"+g.H[len(g.H)-1][0]+":"+ck.name, msg, map[string]any{"check": "attempts", "inputs": in})
+				c.Fail("constant-changed:"+last+":"+ck.name, msg, map[string]any{"check": "attempts", "inputs": in})
 			} else {
 				c.AddTraces(1)
 			}
 		}
 		// containers of any size: the small and the large variant agree on error / non-error of every attempt
 		for _, ck := range constKinds {
-			if ck.large == "" {
+			if ck.large == "" || hasFail {
 				continue
 			}
 			a, b := errFlags[hk+"|"+ck.name], errFlags[hk+"|"+ck.large]
@@ -288,6 +441,11 @@ func checkC19(c *Ctx) {
 		c.Infra(err)
 		return
 	}
+	if failSessions == 0 || failMissed > 0 || failHit*10 < failSessions*8 {
+		c.Infra(fmt.Errorf("C19: only %d of %d failing inputs failed, %d of them without a deadline (sessions with failures test nothing)", failHit, failSessions, failMissed))
+		return
+	}
+	c.Cov("failing_inputs", fmt.Sprintf("%d of %d failed inside their call", failHit, failSessions))
 	c.Cov("histories", len(seen))
 	// a constant bound for the first time from an integer loop variable / parameter (a register): once bound, every later
 	// evaluation - later iterations, after ++ of the parameter, after other loops reused the register - gives the same value
@@ -509,8 +667,24 @@ func replayC19(rp map[string]any) (bool, string) {
 	var in []string
 	b, _ := json.Marshal(rp["inputs"])
 	_ = json.Unmarshal(b, &in)
-	on, _ := runHistory(in, RunOpt{})
-	off, _ := runHistory(in, RunOpt{NoReg: true})
+	if rp["check"] == "mem" {
+		slack, _ := rp["slack"].(float64)
+		dir, err := os.MkdirTemp("", "c19mem")
+		if err != nil {
+			return false, err.Error()
+		}
+		defer os.RemoveAll(dir)
+		cs := []c19MemCase{{Inputs: in, Slack: int64(slack)}}
+		if err := c19MemRun(dir, cs); err != nil {
+			return false, err.Error()
+		}
+		if msg := c19Judge(in, cs[0].On, cs[0].Off); msg != "" {
+			return false, msg
+		}
+		return true, ""
+	}
+	on := c19Run(in, false)
+	off := c19Run(in, true)
 	if rp["check"] == "regbound" {
 		if on[0] != off[0] {
 			return false, describeDiff(on, off, 1)
